@@ -408,6 +408,63 @@ def r_kp_errors(cx):
                   "with an error message and non-zero status" % (name, r, dropped or "result not passed to `?`"),
                   cx.where(t["span"]))
             k += 1
+    # the line iterator: each `io::Result<String>` it yields reaches a `?` - the iterator is not wrapped in an adaptor that
+    # ends or thins the stream at the first read error (map_while(Result::ok), flatten(), filter_map(Result::ok))
+    import pertuple
+    f = kp_fn(cx, "main")
+    if f is not None:
+        discard = ("map_while", "flatten", "filter_map", "flat_map", "take_while", "filter", "ok", "unwrap_or_default")
+        nlines = -1
+        for lbb, lt in f.calls():
+            if not (f.callee(lt) or "").endswith("BufRead::lines"):
+                continue
+            n += 1
+            nlines += 1
+            loops = []
+            wrapped = None
+            for lp in f.loops():
+                x = pertuple.iterator_entry_value(f, lp)
+                if x is None:
+                    continue
+                hit = []
+
+                def vis(y):
+                    if y[0] == "call" and len(y) > 3 and y[3] == lbb:
+                        hit.append(1)
+                    return True
+                mir.walk(x, vis)
+                if not hit:
+                    continue
+                loops.append(lp)
+
+                def vis2(y):
+                    nonlocal wrapped
+                    if y[0] == "call" and isinstance(y[1], str) and y[1].rsplit("::", 1)[-1] in discard:
+                        wrapped = y[1].rsplit("::", 1)[-1]
+                    return True
+                mir.walk(x, vis2)
+            tried = False
+            for lp in loops:
+                for b2 in sorted(lp.body):
+                    tt = f.term(b2)
+                    if tt["k"] == "call" and (tt.get("callee") or "").endswith("Try::branch") and \
+                            "std::io::Error" in (tt.get("callee_full") or ""):
+                        got = []
+
+                        def vis3(y):
+                            if y[0] == "call" and len(y) > 3 and y[3] == lp.header:
+                                got.append(1)
+                            return True
+                        mir.walk(f.arg_terms(b2)[0], vis3)
+                        if got:
+                            tried = True
+            ok = bool(loops) and tried and not wrapped
+            cx.ob("R-KP-ERRORS", "main/lines%d" % nlines, ok,
+                  "kp::main propagates a read error of the line iterator with `?`" if ok else
+                  "kp::main does not propagate the read errors of the line iterator (%s): an unreadable file (a directory, "
+                  "invalid UTF-8) silently ends that file's input, its remaining lines are dropped and kp exits with "
+                  "status 0" % (("the iterator is wrapped in `%s`" % wrapped) if wrapped else "no `?` on the item"),
+                  cx.where(lt["span"]))
     cx.count("R-KP-ERRORS", "fallible_calls", n)
     # main returns Result: the error reaches the process exit status
     f = kp_fn(cx, "main")
@@ -717,22 +774,28 @@ def r_kp_dimension(cx):
                 continue
             m += 1
             v = mir.strip_refs(lens[0])[2][0]
-            cut = []
-
-            def vis(y):
-                if y[0] == "mod" and isinstance(y[2], tuple) and len(y[2]) > 1 and isinstance(y[2][1], str) and \
-                        y[2][1].rsplit("::", 1)[-1] in ("truncate", "drain", "retain", "split_off"):
-                    cut.append(1)
-                if y[0] == "call" and isinstance(y[1], str) and y[1].rsplit("::", 1)[-1] in ("take_while", "map_while"):
-                    cut.append(1)
-                return True
-            mir.walk(v, vis)
-            ok = bool(cut)
+            ok = _has_cut(v)
             cx.ob("R-KP-DIMENSION", "main/input-width", ok,
                   "the input width is the length of the argument list after the comment was cut off" if ok else
                   "kp main: the width of an input line is measured before its trailing comment is removed: the words of "
                   "the comment count as coordinate columns, and the whole batch is printed with more columns",
                   cx.where(t["span"]))
+    # (c) every batch is printed with the width of the widest line so far: the dimension handed to transform() is the
+    # running maximum, not the width of the line just read
+    if g is not None:
+        k = 0
+        for bb, t in g.calls():
+            if (g.callee(t) or "").rsplit("::", 1)[-1] != "transform" or len(g.arg_terms(bb)) < 3:
+                continue
+            a = mir.strip_refs(g.arg_terms(bb)[2])
+            running = a[0] in ("loopphi", "phi") or (a[0] == "call" and isinstance(a[1], str) and a[1].endswith("::max") and
+                                                     any(mir.strip_refs(x)[0] in ("loopphi", "phi") for x in a[2]))
+            m += 1
+            cx.ob("R-KP-DIMENSION", "main/transform%d/width" % k, running,
+                  "transform() receives the running maximum of the input widths" if running else
+                  "kp main: a batch is handed to transform() with %s as its width, not the widest line so far: a whole batch "
+                  "of 25000 lines is cut to the width of its last line" % mir.show(a, maxd=3), cx.where(t["span"]))
+            k += 1
     cx.count("R-KP-DIMENSION", "dimension_sites", n + m)
 
 
@@ -817,3 +880,81 @@ def r_kp_no_preround(cx):
           "decimals print differently from the library result" % (bad[0][0] if bad else "?"),
           cx.where(bad[0][1]) if bad else "src/bin/kp.rs")
     cx.count("R-KP-NO-PREROUND", "calls_scanned", n)
+
+
+def _has_cut(v):
+    cut = []
+
+    def vis(y):
+        if y[0] == "mod" and isinstance(y[2], tuple) and len(y[2]) > 1 and isinstance(y[2][1], str) and \
+                y[2][1].rsplit("::", 1)[-1] in ("truncate", "drain", "retain", "split_off"):
+            cut.append(1)
+        if y[0] == "call" and isinstance(y[1], str) and y[1].rsplit("::", 1)[-1] in ("take_while", "map_while"):
+            cut.append(1)
+        return True
+    mir.walk(v, vis)
+    return bool(cut)
+
+
+@rule("R-KP-SKIP-AFTER-CUT", ["C20"])
+def r_kp_skip_after_cut(cx):
+    """Blank lines and comments are skipped: a line that holds nothing but a comment produces no output line. In the
+    line loop of kp::main a test for an empty token list - whose empty side goes on to the next line - looks at the list
+    *after* the comment was cut off (truncate / take_while); a test of the raw split only lets `# remark` through with
+    zero columns, and the line is transformed with the defaults 0 0 0 NaN."""
+    import pertuple
+    f = kp_fn(cx, "main")
+    if f is None:
+        cx.ob("R-KP-SKIP-AFTER-CUT", "anchor", False, "anchor-missing: kp::main")
+        return
+    n = 0
+    good = raw = 0
+    where = None
+    for lp in f.loops():
+        x = pertuple.iterator_entry_value(f, lp)
+        if x is None:
+            continue
+        hit = []
+        mir.walk(x, lambda y: (hit.append(1) if y[0] == "call" and isinstance(y[1], str) and y[1].endswith("BufRead::lines") else None) or True)
+        if not hit:
+            continue
+        n += 1
+        for b in sorted(lp.body):
+            sw = f.term(b)
+            if sw["k"] != "switch" or f.innermost_loop(b) is not lp:
+                continue
+            c = mir.strip_refs(f.operand(sw["discr"], f.end_point(b)))
+            if c[0] == "un" and c[1] == "Not":
+                c = mir.strip_refs(c[2])
+            lst = None
+            if c[0] == "call" and isinstance(c[1], str) and c[1].endswith("::is_empty") and "Vec" in c[1]:
+                lst = c[2][0]
+            elif c[0] == "bin" and c[1] in ("Lt", "Le", "Eq", "Ne", "Gt", "Ge"):
+                for a, o in ((c[2], c[3]), (c[3], c[2])):
+                    a = mir.strip_refs(a)
+                    if a[0] == "call" and isinstance(a[1], str) and a[1].endswith("Vec::<T, A>::len") and is_const_num(o) and o[2] in (0, 1):
+                        lst = a[2][0]
+            if lst is None:
+                continue
+            toks = []
+            mir.walk(lst, lambda y: (toks.append(1) if y[0] == "call" and isinstance(y[1], str) and
+                                     y[1].rsplit("::", 1)[-1] in ("split_whitespace", "split", "split_ascii_whitespace") else None) or True)
+            if not toks:
+                continue
+            # one side of the test goes straight on to the next line
+            if not any(lp.header in f.reach_from([sx], avoid=[bb for bb in lp.body if f.term(bb)["k"] == "call" and
+                                                             (f.callee(f.term(bb)) or "").endswith("::push")]) for sx in f.succ[b]):
+                continue
+            where = where or cx.where(sw["span"])
+            if _has_cut(lst):
+                good += 1
+            else:
+                raw += 1
+    ok = good > 0
+    cx.ob("R-KP-SKIP-AFTER-CUT", "main/empty-after-comment", ok,
+          "kp::main skips a line whose token list is empty after the comment was removed" if ok else
+          "kp::main %s: a line holding only a comment is not skipped - it is read as a tuple with zero columns, filled with "
+          "the defaults and transformed, so kp prints an output line for it" % (
+              "tests the token list for emptiness only before the comment is cut off" if raw else
+              "has no test for an empty token list in its line loop"), where or cx.where(f.d["span"]))
+    cx.count("R-KP-SKIP-AFTER-CUT", "line_loops", n)
